@@ -86,6 +86,28 @@ pub fn run(r: &mut Report) {
     }
     multi_alg(r, 1, "match-multi-algorithm");
     state_matrix(r);
+    hostile_paths(r);
+}
+
+/// C14 / C03: degenerate artifact paths (root, dots, blanks) against every MATCH prefix shape: a verdict, never a panic
+fn hostile_paths(r: &mut Report) {
+    let paths = ["/", "//", "/.", ".", "./", "..", "a/..", " ", "/a", "a/", "//a//"];
+    let prefixes: [Option<&str>; 6] = [None, Some(""), Some("/"), Some("."), Some("a"), Some("a/")];
+    let (mut n, mut panics): (usize, Vec<String>) = (0, vec![]);
+    for p in paths {
+        for src in prefixes {
+            for dst in prefixes {
+                for pat in ["*", p] {
+                    n += 1;
+                    let rules = vec![mtch(pat, src, Artifact::Products, dst, "a"), dis()];
+                    if let Err(e) = run_two(&[(p, 1)], &[(p, 1)], &[], rules, allow_all()) {
+                        if panics.len() < 5 { panics.push(format!("path {:?} pattern {:?} IN {:?} .. IN {:?}: {}", p, pat, src, dst, e)); }
+                    }
+                }
+            }
+        }
+    }
+    r.case("degenerate-paths-and-prefixes", json!({"verifications": n}), "a verdict from every call (no panic)", format!("{:?}", panics), panics.is_empty());
 }
 
 /// artifact state (created / deleted / modified / unchanged) x consuming rule kind x rule list (materials / products): `K *; DISALLOW *`
